@@ -272,7 +272,7 @@ def time_shift(z, /, shift, crop=False):
     shifted = shifted if np.iscomplexobj(z.data) else shifted.real
 
     start, stop = 0, 0
-    it = np.nditer(shift, flags=["multi_index"])
+    it = np.nditer(np.broadcast_to(shift, z.sample_shape), flags=["multi_index"])
     for a in it:
         if a < 0:
             a = int(np.floor(a))
